@@ -100,6 +100,33 @@ fn sentence_truth(s: &narsese::enum_narsese::Sentence) -> Vec<f64> {
     }
 }
 
+/// the stand-alone truth / budget parsers must only return numbers in [0,1] as well
+pub fn case_side_doors(f: &F, s: &str) -> Result<bool, String> {
+    use narsese::enum_narsese::{Budget, Truth};
+    let f2 = *f;
+    let s2 = s.to_string();
+    let r = quiet_catch(AssertUnwindSafe(move || (f2.e.parse::<Truth>(&s2).ok(), f2.e.parse::<Budget>(&s2).ok())));
+    let Ok((t, b)) = r else { return Ok(false) };
+    let mut any = false;
+    if let Some(t) = t {
+        any = true;
+        for x in truth_floats(&t) {
+            if !in01(x) {
+                return Err(format!("parse::<Truth>({s:?}) returns {t:?} with a component outside [0,1]"));
+            }
+        }
+    }
+    if let Some(b) = b {
+        any = true;
+        for x in budget_floats(&b) {
+            if !in01(x) {
+                return Err(format!("parse::<Budget>({s:?}) returns {b:?} with a component outside [0,1]"));
+            }
+        }
+    }
+    Ok(any)
+}
+
 pub fn case_parse(f: &F, s: &str) -> Result<bool, String> {
     match ops::parse_enum(f, s) {
         Ok(n) => wf(&n, true).map(|_| true).map_err(|e| format!("enum parser accepts {s:?} as {} : {e}", show_cv(&cv_of(&n)))),
@@ -125,6 +152,7 @@ pub fn replay_case(c: &J) -> Result<(), String> {
     let f = fmts::by_name(c["format"].as_str().unwrap_or("ascii"));
     match c["op"].as_str() {
         Some("fold_wf") => case_fold(&f, &ln_from_json(&c["value"])).map(|_| ()),
+        Some("side_door_wf") => case_side_doors(&f, c["input"].as_str().unwrap_or("")).map(|_| ()),
         Some("text_fold_wf") => case_text_fold(&f, c["input"].as_str().unwrap_or("")).map(|_| ()),
         _ => case_parse(&f, c["input"].as_str().unwrap_or("")).map(|_| ()),
     }
@@ -150,6 +178,14 @@ pub fn run(run: &Run) {
                 }
                 Ok(false) => {}
                 Err(msg) => run.violation(&format!("[{}] {}", f.name, msg), json!({"op": "parse_wf", "format": f.name, "input": s}), &[]),
+            }
+            run.eval(1);
+            match case_side_doors(&f, s) {
+                Ok(true) => {
+                    accepted.add(&format!("{}:side:{s}", f.name));
+                }
+                Ok(false) => {}
+                Err(msg) => run.violation(&format!("[{}] {}", f.name, msg), json!({"op": "side_door_wf", "format": f.name, "input": s}), &[]),
             }
             run.eval(1);
             match crate::watch::tagged(f.name, s, || case_text_fold(&f, s)) {
